@@ -95,6 +95,12 @@ chk("C08", "venum+vexplore",
     "Trusted: the reference decision table; directory answers come through the authutil seam (GetLDAPUserGroups).",
     "DESIGN.md 3 C08")
 
+chk("C05", "vexplore",
+    "explicit-state breadth-first search with canonical-state deduplication over operation histories on the real handlers (successor = replay of the shortest history on a fresh instance + one operation), oracle on every transition against ground truth kept in stateful fakes and soft tokens",
+    "One search per second-factor family (Symantec VIP OTP and push against a stateful fake service, local TOTP, U2F with real software tokens through the real begin/finish handlers, bootstrap OTP, CLI token), two users and three cookie jars; alphabet: password login (adversary as A, adversary as B, B's own browser), OTP with A's/B's/bad/stale/already-accepted code, push start, device approval by the owner, poll, hardware-token begin and finish with A's/B's device or a replayed assertion, bootstrap value of A/B/bad, CLI show/send, ticks and a cleanup sweep; in its jars the adversary attaches every cookie and push cookie it ever obtained. After every transition each auth cookie set by the server is decoded: its subject must be the carried cookie's subject and every gained factor bit must be justified by ground truth (owner of the code/push/device/value, first use, freshness). Depth 4-5 quick, +1 thorough; states, transitions and depth per family are in the evidence.",
+    "Trusted: the fakes' ground truth; WebAuthn/FIDO2 (CBOR) and Okta flows are not driven; more than two users / deeper histories are outside the bound.",
+    "DESIGN.md 3 C05")
+
 NOT_YET = {
 }
 
